@@ -308,8 +308,8 @@ func driver() {
 			continue
 		}
 		unlisted++
-		if unlisted > 12 {
-			fmt.Printf("VIOLATION property=%s replay=(not minimised: more than 12 distinct signatures) oracle=%s signature=%q\n", *propID, rec.V.Oracle, rec.V.Sig)
+		if unlisted > 24 {
+			fmt.Printf("VIOLATION property=%s replay=(not minimised: more than 24 distinct signatures) oracle=%s signature=%q\n    %s\n", *propID, rec.V.Oracle, rec.V.Sig, oneLine(rec.V.Msg, 400))
 			continue
 		}
 		// minimise
@@ -319,6 +319,11 @@ func driver() {
 		orig := rec.Tape
 		min, evals := orig, 0
 		budget, dur := 400, 40*time.Second
+		if sb, ok := p.(interface {
+			ShrinkBudget() (int, time.Duration)
+		}); ok {
+			budget, dur = sb.ShrinkBudget()
+		}
 		min, evals = tape.Shrink(orig, nil, func(c []uint32) (bool, []uint32) {
 			o, err := evalTape(p, c, false, false)
 			if err != nil || o.Infra != "" {
